@@ -1048,3 +1048,34 @@ func orOperands(e ast.Expr) []ast.Expr {
 	}
 	return []ast.Expr{e}
 }
+
+// pkgClosure returns root and every declared function of root's package that it reaches through static calls (literals
+// included), in discovery order: "the code behind this entry point", whatever helpers it was split into.
+func (c *Ctx) pkgClosure(root *Func) []*Func {
+	seen := map[*Func]bool{root: true}
+	out := []*Func{root}
+	for i := 0; i < len(out); i++ {
+		f := out[i]
+		for _, call := range f.AllCalls(f.Body, true) {
+			fn := f.Callee(call)
+			if fn == nil || fn.Pkg() == nil || fn.Pkg() != root.Pkg.Types {
+				continue
+			}
+			if g := c.P.FuncOf(fn); g != nil && !seen[g] {
+				seen[g] = true
+				out = append(out, g)
+			}
+		}
+	}
+	return out
+}
+
+// closureMentions: some function behind root mentions obj.
+func (c *Ctx) closureMentions(root *Func, obj types.Object) bool {
+	for _, f := range c.pkgClosure(root) {
+		if f.Mentions(f.Body, obj) {
+			return true
+		}
+	}
+	return false
+}
